@@ -39,6 +39,7 @@ type output struct {
 	Failing          map[string][]string  `json:"failing"` // family|kind|group -> failing abstract strings
 	Conformance      confResult           `json:"conformance"`
 	Infra            []string             `json:"infra"`
+	AltErrs          map[string]string    `json:"alt_baseline_errors"`
 	Samples          []map[string]any     `json:"samples"`
 	WallS            float64              `json:"wall_s"`
 	Shard            string               `json:"shard"`
@@ -288,6 +289,7 @@ func run(args []string) {
 		sort.Strings(out.Failing[k])
 	}
 	out.Infra = ck.infra
+	out.AltErrs = ck.altErrs
 	// a few cases written out
 	for i, cs := range cases {
 		if i%sn == si && len(cs.S) == 2 && len(out.Samples) < 3 {
